@@ -14,12 +14,12 @@ NOT_YET = "monitor designed (DESIGN.md section 2) but not yet built/validated in
 P = {
     "C01": dict(cat="exploration", tech="runtime monitor: engine-side finite-difference oracle (Richardson pair) on add_energy()/applied atomic forces over generated configurations in the engine simulator, purity guard, ASan sample",
                 text="Generated (component type x atom-group fit option x bias x cell x coefficient/exponent) configurations and random geometries are run through the real calc(); every coordinate of every engine atom is swept by central differences (h, h/2) of the engine-visible energy and compared with the force handed to the engine; spectator atoms must get exactly zero. Held on the cases listed in the evidence; component types without a template are listed as uncovered.",
-                note="trusts esim (engine contract of the NAMD/LAMMPS proxies); non-smooth points and stateful evaluations are inconclusive, never violations; tolerance 1e-6 of the force scale (accuracy of the iterative diagonalisation); enableFitGradients off and eigenvector default self-fit are documented approximations and excluded"),
+                note="trusts esim (engine contract of the NAMD/LAMMPS proxies); non-smooth points and stateful evaluations are inconclusive, never violations; tolerance 1e-6 of the force scale (accuracy of the iterative diagonalisation); enableFitGradients off and eigenvector default self-fit are documented approximations and excluded; OPES: the shifted-kernel derivative is a known finding, reported only when the deviation matches the factor predicted from the kernels in the state"),
     "C02": dict(cat="exploration", tech="runtime monitor: independent numpy reference of each documented definition + metamorphic transformations (rigid motion, lattice translation, permutation/duplicates, q/-q) on values observed through esim; optimality of the fitting rotation tested against random and perturbed rotations",
                 text="33 component types compared with an independent implementation written from the manual and under every invariance that follows from the documented definition; fitting rotation checked to be the least-squares optimum.",
                 note="conditioning-aware tolerance 1e-10*scale + 1e-11*sensitivity; documented singular geometries skipped; path CVs, neuralNetwork, alch*, mapTotal, Lepton/Torch components uncovered (listed in the evidence)"),
     "C03": dict(cat="exploration", tech="runtime monitor: differential histories (uninterrupted vs stop / state file / fresh process / load / resume) compared event by event at the engine boundary, both state formats, file / string / buffer channels; save(load(S)) == S",
-                text="For 26 bias families (restraints fixed/moving/staged, walls, linear, ABF/eABF, metadynamics variants, OPES, ABMD, histogram, extended Lagrangian) every stop step K of a short history with off-grid excursions is resumed in a fresh process; all later engine-visible events and the final state must agree. Exhaustive over K in the thorough tier.",
+                text="For 29 bias families (restraints fixed/moving/staged, walls, linear, ABF/eABF, metadynamics variants, OPES, ABMD, histogram, extended Lagrangian) every stop step K of a short history with off-grid excursions is resumed in a fresh process; all later engine-visible events and the final state must agree. Exhaustive over K in the thorough tier.",
                 note="positions and physical forces are imposed, so no chaotic amplification: reals agree to 1e-10 relative (state files carry 14 digits), integers exactly; step K is recomputed with step_relative()==0 as engines do"),
     "C04": dict(cat="exploration", tech="runtime monitor: lock-step reference model of the ABF estimator fed with exactly imposed values and dyadic projected forces; stored counts (==), stored mean gradients (printed precision) and applied force compared after every step; ASan sample",
                 text="1-3 variables, both total-force timing conventions, periodic zero-mean, ramp corner values, maxForce, applyBias off, a second bias with/without subtractAppliedForce, off-grid excursions, run boundaries.",
@@ -34,11 +34,11 @@ P = {
                 text="distance, distanceZ, distanceXY, angle, dihedral, gyration, rmsd, eigenvector, alchLambda, +-1 combinations, oneSiteTotalForce, both timing conventions, subtractAppliedForce, hideJacobian.",
                 note="random (non-dyadic) inputs so that the known exact-cancellation finding of C04 is not triggered"),
     "C08": dict(cat="exploration", tech="runtime monitor: differential runs at the engine boundary (biases {A,B} vs {A} and {B}; time-step factor n vs 1) on imposed histories",
-                text="Bias subsets and time-step factors.", note=""),
+                text="Sets of biases {A,B,...} run together and separately on the same imposed history: energies and atomic forces of the joint run equal the sums of the separate runs, and a bias with applyBias off / zero strength contributes nothing. Biases and variables with timeStepFactor n: asleep between their steps (no value update, no force), awake steps apply n times the instantaneous force, impulse over a window equals the factor-1 impulse of the sampled steps; runs starting off-multiple (restart, setstep).", note="a variable with factor n under a bias whose factor is not a multiple of n is computed off its schedule: known finding (manual allows the combination)"),
     "C09": dict(cat="exploration", tech="libFuzzer + ASan/UBSan on read_config_string (hermetic proxy); enumerated keyword/brace/value mutations that must be rejected; documented layout rewrites compared bitwise",
-                text="Fuzzing + enumerated mutation classes + rewrites.", note=""),
+                text="libFuzzer on read_config_string with a dictionary harvested from the sources (quick: >= 10^4 executions, thorough: 15 min x 16 workers); every generated template under enumerated damage classes (unknown / misspelt keyword, unbalanced braces, missing or unreadable values, trailing junk in lists) must be rejected with an error and leave the module usable; documented layout rewrites (blank lines, indentation, comments, CRLF, blocks joined on one line, brace on the last value line, boolean synonyms, keyword case) must produce a bit-identical model (values, energies, forces after steps).", note="fuzz corpus is seeded from the generated templates; crashes are keyed by sanitizer kind and innermost Colvars frame"),
     "C10": dict(cat="exploration", tech="ASan/UBSan processes over a (object type x keyword x boundary value) grid, one process per case; differential test of surviving objects after a rejected configuration",
-                text="Keyword x boundary-value grid.", note=""),
+                text="Every keyword (occurring in a template or harvested from the get_keyval calls of the class that parses the block) x {0, -1, 1, 2, 2^31-1, 2^31, 2^32, 2^61, 2^63-1, 1e30, 1e308, nan, inf, -inf, empty, removed, list/vector length errors, bad atoms, missing files, swapped boundaries} plus seeded pairs, one ASan/UBSan process per case through init, steps, state and output writes: must end with success or an error, never a signal, sanitizer report, escaping exception, unbounded allocation or hang. Survivors: after a rejected configuration fed through cv config (including colvars that use the deprecated wall keywords), the previously defined objects behave bit-identically to a control that never saw it, and a later valid configuration is accepted in both.", note="quick runs a stratified sample (about 3800 cases), thorough about 40000; hang = 120 s watchdog re-run once at 10x before it is reported"),
     "C11": dict(cat="fault_enumeration", tech="strace syscall-level kill injection + LD_PRELOAD partial-write shim over every file-system call of a state write; exhaustive truncation and bit flips of valid states under ASan; libFuzzer on state input; typed round trip through memory_stream",
                 text="Every call (and partial write) of state writes after the first complete state is turned into a crash point, then a fresh process must load the state file or its backup and find one of the states the uninjected run produced; every truncation offset of text and binary states of 7 configurations must be rejected inside object blocks and never crash; every value type round-trips bit-exactly.",
                 note="crash = SIGKILL of the process (no power-loss / page-cache model); one format limitation (binary hill list has no count) is a known finding"),
@@ -52,7 +52,7 @@ P = {
                 text="2-4 walkers; every exchange of every walker compared with the union of all walkers' samples (counts ==); metadynamics walkers under a seeded interleaving and partially visible peer files must end up with the hill sum over the union within two update periods.",
                 note="bounded-progress form of 'eventually'; replica communication simulated between processes"),
     "C15": dict(cat="exploration", tech="runtime monitor: imposed dyadic values (on bin edges, boundaries, periods away) vs the literal binning rule, stored counts and multicolumn file compared cell by cell; in-process grid write/read round trips (multicol, restart text/binary, raw)",
-                text="Imposed value sequences; file round trips.", note="gatherVectorColvars histograms are rejected by the library at initialisation (known finding), so per-element weights cannot be exercised"),
+                text="Histograms and ABF count grids of 1-3 variables fed imposed dyadic values on bin edges, boundaries, just inside/outside, whole periods away: every sample lands in exactly the bin given by floor((x-lower)/width) (periodic: modulo), out-of-range samples are dropped (not clamped), totals conserved; grids written as multicolumn / restart text / restart binary / raw and read back must reproduce parameters and data exactly.", note="gatherVectorColvars histograms are rejected by the library at initialisation (known finding), so per-element weights cannot be exercised"),
     "C16": dict(cat="exploration", tech="in-process harness on integrate_potential / gradient grids with independent numpy oracles: 1-D cumulative sums and closure, residual of the discrete Poisson problem (own operator, independent Laplacian, dense least squares), refinement-order test against analytic surfaces, incremental-vs-batch divergence through the guarded accessor, real ABF runs",
                 text="Random fields on 1-3-D grids with all periodicity patterns and anisotropic widths, six arrival-order classes, three resolutions per analytic surface.",
                 note="max-norm order at corners where >=2 non-periodic directions meet is h^2 log(1/h): counted separately, RMS order must still be 2"),
@@ -66,7 +66,7 @@ P = {
                 text="Column/label agreement, step stamps, one line per multiple of the output frequency across run boundaries and object addition/deletion; running average/deviation and auto/cross correlation functions vs textbook definitions.",
                 note="printed precision (1e-10 relative for derived quantities)"),
     "C20": dict(cat="exploration", tech="libFuzzer + ASan/UBSan over script command sequences with a usability epilogue; agreement of script queries with the engine-side event log; equivalence of script-driven and engine-driven paths",
-                text="Fuzzed command sequences + agreement scenarios.", note=""),
+                text="libFuzzer over sequences of run_colvarscript_command calls (well-formed and malformed, every command of the table at least once each way) interleaved with steps, with an epilogue that must behave as a pristine module; after every step of generated scenarios the script queries equal the engine-side event log at the printed precision; cv config / load / loadfromstring (objects defined in the same or in reverse order) / addforce / delete are equivalent to their engine-driven counterparts on the subsequent steps.", note="equivalence is bitwise, except reordered loaders (sums run in another order): 1e-9 relative"),
 }
 
 
